@@ -8,7 +8,7 @@ from lib import vlib
 REASONS = {
     "C02": {"malformed_response", "bad_framing", "cert_invalid", "srep_sig_invalid", "midpoint_outside_delegation", "version_fields",
             "proof_invalid", "proof_for_other_request", "nonce_not_echoed", "fault_rate", "unsolicited", "wrong_protocol",
-            "path_length_differs_under_one_root", "path_too_short_for_batch"},
+            "path_length_differs_under_one_root", "path_too_short_for_batch", "batch_larger_than_configured"},
     "C07": {"amplification", "reply_to_malformed"},
     "C08": {"panic", "wedged", "no_reply_to_valid"},
     "C09": {"no_reply_to_valid", "duplicate_reply", "to_wrong_sender", "proof_for_other_request", "nonce_not_echoed", "wrong_protocol",
@@ -16,6 +16,7 @@ REASONS = {
     "C10": {"cert_invalid", "cert_context_not_separated", "midpoint_outside_delegation", "announced_key"},
     "C11": {"midpoint_not_clock", "radius"},
     "C12": {"reply_to_malformed", "no_reply_to_valid", "version_fields"},
+    "C16": {"batch_larger_than_configured"},
     "C17": {"stats_valid_requests", "stats_invalid_requests", "stats_responses", "stats_bytes"},
     "C20": {"leak", "leak_in_log"},
 }
